@@ -518,6 +518,8 @@ func propC20(c *Ctx) {
 	}
 
 	// ---- registry -----------------------------------------------------------------------------
+	rgw := c.Rule("global-write", "the conversion functions and everything they reach write no package-level variable (conversions run concurrently; an unsynchronised cache pairs one goroutine's type with another's converter)", 1)
+	ruleConvGlobalWrite(c, rgw)
 	rr := c.Rule("registry-key", "the converter registry is looked up by the dynamic type itself (the result of reflect.TypeOf used directly as the key of a map keyed by reflect.Type): only then is the unchecked assertion inside each registered converter safe", 2)
 	for _, name := range []string{"ToObject", "ToInterface"} {
 		fn := l.Func(modPath+"/registry", name)
